@@ -152,20 +152,8 @@ func GenScenario(t *rapid.T, b Bias) Scenario {
 		}
 		s.Steps = append(s.Steps, st)
 	}
-	if s.Style == "bluegreen" && s.Provider != "" && KnownOpen[FindingBlueGreenRouteToMissingSvc] {
-		// known finding: the success finalising of a blue-green release routes 100% to the canary
-		// Service without making sure it exists; a last step without traffic has removed it
-		if last := &s.Steps[len(s.Steps)-1]; last.Traffic == nil && last.Match == "" {
-			last.Traffic = intp(100)
-			GenExcluded[FindingBlueGreenRouteToMissingSvc]++
-		}
-	}
 	return s
 }
-
-// FindingBlueGreenRouteToMissingSvc: blue-green, traffic routing, the last step carries neither
-// traffic nor matches.
-const FindingBlueGreenRouteToMissingSvc = "c04-bluegreen-finalising-routes-all-traffic-to-missing-canary-service"
 
 var defaultUserWeights = map[string]int{
 	UserApprove: 10, UserRelease: 2, UserRollback: 2, UserPause: 1, UserResume: 2, UserScale: 1,
